@@ -2,6 +2,8 @@
 """Regenerates /verif/MANIFEST.json from the table below (claimed checks + not_applicable)."""
 import json, subprocess
 
+TECH = "contract-based deductive verification (own VC generator over go/ssa, z3/cvc5)"
+BASE_NOTE = "Trusted base: go/packages+go/types+go/ssa as the semantics of Go, the govc VC generator and memory model, the SMT solvers, slice/stream sizes < 2^61. Assumed external contracts and axioms are listed per run in the evidence file (assumptions)."
 CLAIMED = {
     # id: (category, text, design_ref, level_note, technique)
     "C01": ("proof",
@@ -10,9 +12,45 @@ CLAIMED = {
             "written from the statement; round-trip, canonical-length and exact-consumption lemmas are proof harnesses verified "
             "against the callee contracts. All inputs, no bound.",
             "DESIGN.md §4 C01",
-            "Assumed: bytes.Buffer model (Write/WriteByte/Read/Bytes/Reset/NewBuffer), math.Float*bits as bit casts, go/ssa, the VC generator, SMT solvers, sizes < 2^61. "
-            "tcp-backed DataInputX is outside the contracts (requires tcp == nil).",
-            "contract-based deductive verification (own VC generator over go/ssa, z3/cvc5)"),
+            BASE_NOTE + " Assumed: bytes.Buffer model (Write/WriteByte/Read/Bytes/Reset/NewBuffer), math.Float*bits as bit casts. "
+            "tcp-backed DataInputX is outside the contracts (requires tcp == nil). The typed-array writers/readers are not under a byte-level contract yet.",
+            TECH),
+    "C07": ("proof",
+            "For each UDP pack type a proof harness derived from the AST of Write and frozen: decode(encode(p)) at the same (symbolic) version consumes the "
+            "stream exactly, re-encodes to the same token stream (checked token by token) and restores every field Write emits under the version gate under "
+            "which it emits it — all version numbers at once. Pool hygiene: the state after Clear() is independent of the state before it, field by field "
+            "(fields enumerated from go/types at run time). Numeric-as-text fields via assumed strconv inverse pair.",
+            "DESIGN.md §4 C07",
+            BASE_NOTE + " The codec layer is verified over the token view of io (ensures@tok), an abstraction of io's byte-level contracts justified by the C01 lemmas (trusted meta-argument). "
+            "Not covered: CreatePack/ClosePack through sync.Pool, UdpActiveStatsPack (text joined/split by strings/strconv), the password-masking clause (strings/maps: outside the verifier), transaction-start length caps.",
+            TECH),
+    "C10": ("proof",
+            "Lock discipline as ghost state held(mutex): for every exported method of every hash map/set, the linked list and both request queues (enumerated from go/types) "
+            "govc proves Lock() is only called when not held (sync.Mutex is not re-entrant: self-deadlock), every access to a field written under the lock happens while it is held "
+            "(static race freedom for all schedules), and the lock is released on every normal and panicking exit; callees are inlined so helper methods are checked in context. "
+            "Unlocked accesses found on the unchanged tree are genuine races recorded in known_findings.json.",
+            "DESIGN.md §2.6, §4 C10",
+            BASE_NOTE + " Assumed: sync.Mutex/Locker/Cond contracts. Linearizability follows from whole-duration critical sections plus the sequential contracts by the standard coarse-grained-locking meta-theorem (stated, not machine-checked); liveness/fairness are not expressible.",
+            TECH),
+    "C13": ("proof",
+            "Representation predicate and sequence view for the five typed lists and the linked list; every accessor/mutator against the view (append, set, get, remove, ensure's growth policy, "
+            "out-of-range indices never return normally), byte layout of Write/Read and their round trip (induction as a loop in the harness), sorting: identity initialisation, "
+            "comparator closures against the specified order (primary then child, both directions), Swap/Len, result is a permutation; Filtering returns the selected elements in order.",
+            "DESIGN.md §5 C13",
+            BASE_NOTE + " Assumed: sort.Sort only permutes through Swap (the ordering of the final result rests on it: the repository's Less is non-strict, see DESIGN), AnyList interface model, strconv/fmt for the text accessors.",
+            TECH),
+    "C19": ("proof",
+            "Gregorian spec functions written from the calendar rules; the three nested loops of the century table proved with full invariants (every one of the 36525 entries carries the civil date, "
+            "time and weekday of its day); every helper on an instant of the century against Euclidean digits of the day remainder, text digits pinned; unit functions are floor((t-BASE)/step), monotone, step exactly.",
+            "DESIGN.md §5 C19",
+            BASE_NOTE + " Assumed: strconv.Itoa/Atoi and fmt.Sprintf for the digit formats used, bytes.Buffer string building. DateFormat (time.Time, maps, bytes.Reader) is outside the verifier and not claimed; agreement of the spec with package time is a self-test of the spec, not a proof.",
+            TECH),
+    "C20": ("proof",
+            "Equals/CompareTo of every value type and every util/compare helper against spec relations; totality (nopanic) for nil, same-type and mixed-type arguments; laws (reflexive, symmetric, transitive, antisymmetric, zero-iff-equal, "
+            "ordering by type code) as proof harnesses over the contracts; containers at depth 1. Violations that remain on the repaired tree (NaN, summaries, nil vs empty, nil elements) are known findings.",
+            "DESIGN.md §5 C20",
+            BASE_NOTE + " Assumed: IEEE comparison axioms (without x == x), string order axioms, interface-method contracts for Value (checked per implementation by dispatch harnesses), trusted hmap enumerator model for the map types.",
+            TECH),
 }
 
 NOT_APPLICABLE = {
